@@ -37,6 +37,30 @@ func (e *Engine) computeGlobalInits() {
 		if initFn == nil || len(initFn.Blocks) == 0 {
 			continue
 		}
+		// function-valued globals initialised with a function literal and never re-assigned
+		for _, b := range initFn.Blocks {
+			for _, in := range b.Instrs {
+				s, ok := in.(*ssa.Store)
+				if !ok {
+					continue
+				}
+				g, ok := s.Addr.(*ssa.Global)
+				if !ok || len(e.storedGlobals[g]) > 0 {
+					continue
+				}
+				if _, isSig := derefType(g.Type()).Underlying().(*types.Signature); !isSig {
+					continue
+				}
+				switch v := s.Val.(type) {
+				case *ssa.Function:
+					e.globalInits[g] = &globalInit{kind: "func", fn: v}
+				case *ssa.MakeClosure:
+					if f, ok := v.Fn.(*ssa.Function); ok && len(v.Bindings) == 0 {
+						e.globalInits[g] = &globalInit{kind: "func", fn: f}
+					}
+				}
+			}
+		}
 		func() {
 			defer func() { recover() }()
 			x := e.newFnCtx(initFn, &Contract{Key: "init", Mode: "int", Loops: map[int]*LoopSpec{}})
